@@ -29,6 +29,10 @@ type force struct {
 	segMin  int64
 	partMin int64
 	mediaMs int
+	// every key frame carries changed parameter sets (each forces a segment rotation); audio writes hold audioN units
+	paramEveryKey bool
+	audioN        int
+	gop           int
 }
 
 func fixedScenarios() []force {
@@ -56,6 +60,9 @@ func fixedScenarios() []force {
 		{name: "h264-short-segments", variant: 2, tracks: []tcfgA{vid(kH264, 1)}, target: "index", segMin: 200e6},
 		{name: "fmp4-pointed-at-audio-rendition", variant: 2, tracks: []tcfgA{vid(kH264, 1), aac(16000, 0, 0, false)}, target: "media:1"},
 		{name: "ll-pointed-at-audio-rendition", variant: 3, tracks: []tcfgA{vid(kH264, 1), aac(16000, 0, 0, false)}, target: "media:1", partMin: 200e6},
+		// forced rotations every 100 ms, one audio write (4 access units) every 512 ms: most segments hold no audio
+		{name: "ts-segments-without-audio", variant: 1, tracks: []tcfgA{aac(8000, 0, 0, false), vid(kH264, 1)}, target: "index",
+			paramEveryKey: true, audioN: 4, gop: 3},
 		{name: "ts-h264-short-segments", variant: 1, tracks: []tcfgA{vid(kH264, 1)}, target: "media:0", segMin: 250e6},
 	}
 }
@@ -243,6 +250,10 @@ func genPair(seed uint64, id int, f *force) pairDesc {
 	}
 	p.NtpBase = int64(1700000000)*1e9 + int64(r.Intn(1000))*1e6 + int64(r.Intn(1000))*1e3
 	paramChanges := r.Bool(1, 8)
+	paramProb := 6
+	if f != nil && f.paramEveryKey {
+		paramChanges, paramProb = true, 1
+	}
 	for i, t := range tracks {
 		s := &st[i]
 		s.params = t.Params0
@@ -255,6 +266,9 @@ func genPair(seed uint64, id int, f *force) pairDesc {
 			}
 			s.jitter = r.Bool(1, 4)
 			s.gop = []int{2, 3, 5, 8, 12}[r.Intn(5)]
+			if f != nil && f.gop != 0 {
+				s.gop = f.gop
+			}
 			s.sinceKey = r.Intn(s.gop + 1) // may start mid-GOP
 			if s.sinceKey == 0 {
 				s.sinceKey = s.gop
@@ -303,7 +317,7 @@ func genPair(seed uint64, id int, f *force) pairDesc {
 			a.RA = key
 			a.NonIDR = !key
 			if a.RA {
-				if paramChanges && r.Bool(1, 6) {
+				if paramChanges && r.Bool(1, paramProb) {
 					s.params = 1 + (s.params % 11)
 				}
 				a.HasParams, a.Params = true, s.params
@@ -331,6 +345,9 @@ func genPair(seed uint64, id int, f *force) pairDesc {
 			n := 1
 			if r.Bool(1, 4) {
 				n = 2 + r.Intn(3)
+			}
+			if f != nil && f.audioN != 0 {
+				n = f.audioN
 			}
 			if !hasVideo && ti == 0 { // leading audio: keep one Write from spanning several segments
 				if maxN := int(h.SegMin / (1024 * 1e9 / t.SRate)); n > maxN {
